@@ -219,6 +219,65 @@ def make_repr(spec):
     return body
 
 
+MARKUP_TAGS = ['bold', 'red', 'bold red', 'on_blue', 'italic underline', 'nosuchstyle', 'bright_green', 'dim']
+MARKUP_CHARS = ['a', ' ', ']', '/', '\\', '日', 'e\u0301', '\x9b', '%', '{', ':', '\t', '~', 'K', '0', 'm', ';']
+
+
+def make_markup(spec):
+    """markup(): '[tags]TEXT[/] tail' with TEXT built from solver-selected representative characters (closing bracket, slash, backslash, wide, combining,
+    C1 CSI, format and brace characters, SGR-looking letters and digits ...): removing the escape sequences from the styled result leaves exactly TEXT + tail,
+    the visible length is its length, with colour disabled there is no escape sequence at all; '[[' is an escaped bracket"""
+    from tatsu.util.tty import descape, visual_len
+    from tatsu.ztyle.markup import markup
+    from tatsu.ztyle.style import Color
+    n = spec['n']
+
+    def native(sel):
+        tag = MARKUP_TAGS[sel[0]]
+        text = ''.join(MARKUP_CHARS[i] for i in sel[1:1 + n])
+        esc_seen = False
+        for src, plain in ((f'[{tag}]{text}[/] tail', f'{text} tail'), (f'[[{text}[{tag}]x[/{tag.split()[-1]}]', f'[{text}x'), (f'{text}[{tag}][/]', text)):
+            try:
+                on = markup(src, color=Color.always())
+                off = markup(src, color=Color.never())
+                s_on, s_off = str(on), str(off)
+            except Exception as e:  # noqa: BLE001
+                return False, 'exception', [src, type(e).__name__ + ': ' + str(e)[:80]]
+            esc_seen = esc_seen or '\x1b' in s_on
+            if descape(s_on) != plain:
+                return False, 'descape-differs', [src, descape(s_on), plain]
+            if on.value != plain:
+                return False, 'value-differs', [src, on.value, plain]
+            if '\x1b' in s_off or s_off != plain:
+                return False, 'disabled-colour-output', [src, s_off, plain]
+            if visual_len(s_on) != visual_len(plain):
+                return False, 'visual-length', [src, visual_len(s_on), visual_len(plain)]
+        return True, 'styled' if esc_seen else 'plain', None
+
+    cache = {}
+
+    def pick(a, hi):
+        v = 0
+        for i in range(hi):
+            if a == i:
+                v = i
+        return v
+
+    def body(args):
+        if _tracing():
+            sel = tuple([pick(args[0], len(MARKUP_TAGS))] + [pick(a, len(MARKUP_CHARS)) for a in args[1:]])
+            from crosshair.tracers import NoTracing
+            with NoTracing():
+                cache.clear()
+                cache[sel] = r = native(sel)
+                return r
+        return cache.get(tuple(args)) or native(tuple(args))
+
+    body.explain = lambda args: repr(native(tuple(args)))
+    body.warm = [tuple([0] * (n + 1)), tuple([1] + [2] * n)]
+    return body
+
+
 def plan(tier, seed):
     obs = []
     nt = 2 if tier == 'quick' else 3
@@ -246,6 +305,9 @@ def plan(tier, seed):
     obs.append(Ob(name='B_repr_bg', factory='vt.props.c20:make_repr', spec={'group': 'bg', 'texts': TEXTS[:3]}, params=[('bg', -2, 258)], budget=900, group='B'))
     obs.append(Ob(name='B_repr_rgb', factory='vt.props.c20:make_repr', spec={'group': 'rgb', 'texts': TEXTS[:2]}, params=[('r', -3, 259), ('g', 250, 259)], budget=1200 if tier == 'quick' else 3000,
                   group='B', extra_pre=edge))
+    for n in ((1, 2) if tier == 'quick' else (1, 2, 3)):
+        obs.append(Ob(name=f'M_markup_{n}', factory='vt.props.c20:make_markup', spec={'n': n, 'program': 'markup'},
+                      params=[('tag', 0, len(MARKUP_TAGS))] + [(f'k{i}', 0, len(MARKUP_CHARS)) for i in range(n)], budget=600 if n < 3 else 3000, group='markup', require_tags=('styled',)))
     if tier != 'quick':
         obs.append(Ob(name='B_repr_fgbg', factory='vt.props.c20:make_repr', spec={'group': 'fgbg', 'texts': TEXTS[:2]}, params=[('fg', -1, 256), ('bg', -1, 256)], budget=3600, group='B'))
     return {
@@ -257,7 +319,7 @@ def plan(tier, seed):
                        'checked with os.environ and sys.stdout stubbed and symbolic selectors. Format specs are a concrete list (format() is a C boundary that realises '
                        'the text: those obligations are concolic and reported as unexhausted unless they exhaust). B: Style.from_raw(repr(s)) keeps every attribute for '
                        'symbolic attribute values (integers realised one by one by the solver) and the text for a concrete list of texts.',
-        'functions_encoded': ['tatsu.ztyle.style:Style.__init__/_set_fg/_set_bg/apply/apply_style/__repr__/from_raw/parse_fmt/fmt', 'tatsu.ztyle.style:Color.enabled/is_terminal', 'tatsu.ztyle.style:RGB.__new__',
+        'functions_encoded': ['tatsu.ztyle.markup:markup/tokenize/apply_style_stack/StyleZ (selector-chosen texts, native per path)', 'tatsu.ztyle.style:Style.__init__/_set_fg/_set_bg/apply/apply_style/__repr__/from_raw/parse_fmt/fmt', 'tatsu.ztyle.style:Color.enabled/is_terminal', 'tatsu.ztyle.style:RGB.__new__',
                               'tatsu.util.tty:descape/visual_len/tty_escape/tty_unescape/ANSI_RE/SGR_RE'],
         'bounds': f'text of {nt}..{nt + 1} symbolic code points (all Unicode except ESC); fg/bg -2..257; RGB component -3..258 (quick: the 12 values at both ends of the range); 256 modifier combinations; {4 if tier == "quick" else len(FMTS) - 1} format specs; {len(TEXTS)} concrete texts for the repr round trip',
         'outside': 'longer texts; display width of wide/combining characters (visual_len counts code points, as the statement does); the text of a Style object itself is concrete (Style is a C-level str subclass); '
